@@ -46,6 +46,7 @@ int _vnacal_new_solve_simple(vnacal_new_solve_state_t *vnssp,
     double frequency = vnp->vn_frequency_vector[findex];
     double *w_vector = NULL;
     double complex *prev_x_vector = NULL;
+    int w_offset = 0;		/* index of this system's first weight */
     int rv = -1;
 
     /*
@@ -119,7 +120,7 @@ int _vnacal_new_solve_simple(vnacal_new_solve_state_t *vnssp,
 			value *= vs_get_v(vnssp);
 		    }
 		    if (w_vector != NULL) {
-			value *= w_vector[eq_count];
+			value *= w_vector[w_offset + eq_count];
 		    }
 		    if (xindex == -1) {
 			b_vector[eq_count] += value;
@@ -191,6 +192,7 @@ int _vnacal_new_solve_simple(vnacal_new_solve_state_t *vnssp,
 	    (void)memcpy((void *)prev_x_vector, (void *)x_vector,
 		    x_length * sizeof(double complex));
 	}
+	w_offset += equations;
     }
     rv = 0;
 
